@@ -449,6 +449,19 @@ pub fn run(ctx: &Ctx) -> Report {
             }
         }
     }
+    // every value around the limits of the integer types (with and without leading zeros)
+    for centre in [u32::MAX as u128, i64::MAX as u128, u64::MAX as u128] {
+        for v in centre.saturating_sub(3)..=centre + 6 {
+            for digits in [v.to_string(), format!("00{}", v)] {
+                for pat in [format!("{{m:{}}}", digits), format!("{{m:.{}}}", digits), format!("x{{m:<{}.{}}}y", digits, digits)] {
+                    n5 += 1;
+                    if let Some((s, d)) = safety(&pat, false) {
+                        rep.violation(format!("width:{}", s), d, json!({"pattern": pat}));
+                    }
+                }
+            }
+        }
+    }
     rep.add("evaluations", n5);
     rep.set("width_patterns", n5);
     // (vi) thread life cycle: first and later use on a fresh thread, per formatter
